@@ -711,6 +711,8 @@ from mlmverif.selfcheck import B, OK  # noqa: E402
 
 _T = 'chainables/transform.py'
 VARIANTS = [
+    OK('put-through-a-local', 'utils/iter_utils.py',
+       "          self._put_nowait(value)\n", "          item = value\n          self._put_nowait(item)\n"),
     OK('merged-state-fetched-then-none-tested', 'chainables/transform.py',
        "          if key in states_by_fn:\n            fn_state = agg_fn.merge_states([states_by_fn[key], fn_state])", "          prev_state = states_by_fn.get(key)\n          if prev_state is not None:\n            fn_state = agg_fn.merge_states([prev_state, fn_state])"),
     B('merged-state-tested-by-truth', 'chainables/transform.py',
